@@ -1,5 +1,5 @@
 """C11 cross-process determinism probe — executed in a FRESH interpreter under a given PYTHONHASHSEED:
-    python c11_probe.py <variant-seed> [name ...]
+    python c11_probe.py <variant-seed> <rebuild-rounds> [name ...]
 Builds a directed set of programs written directly against PyTeal's public API (dict/set/enum driven constructs:
 InnerTxnBuilder.MethodCall / ExecuteMethodCall / SetFields / Execute with several fields, transaction-typed method
 arguments, Router programs, subroutine-heavy programs, many ScratchVars, Cond, NamedTuple, abi.make, methods with
@@ -225,14 +225,180 @@ def programs(vseed):
                           pt.Pop(pt.Gitxn[0].fee() + pt.Gtxn[1].fee() + pt.Txn.accounts.length()),
                           pt.Assert(pt.Int(1), pt.Int(2), comment="both"), pt.Approve()), 8)
 
-    return P
+    # ------------------------------------------------------------------------------------------
+    # the SAME object compiled again (and at another version in between): annotated constructs and everything else whose
+    # __teal__ might write to self.  Returns [(label, value)] per attempt; attempts with equal labels must be equal.
+    def attempts(expr, mode, cfgs):
+        out = []
+        for label, kw in cfgs:
+            try:
+                out.append([label, ["ok", pt.compileTeal(expr, mode, **kw)]])
+            except RecursionError:
+                out.append([label, ["exc", "RecursionError"]])
+            except Exception as e:  # noqa
+                out.append([label, ["exc", type(e).__name__]])
+        return out
+
+    A, B, C = ("v6", {"version": 6}), ("v8", {"version": 8}), ("v10-noopt", {"version": 10, "optimize": pt.OptimizeOptions(scratch_slots=False)})
+    seq3 = [A, A, B, A, C, B, A]
+    RC = {}
+
+    def rec(fn):
+        RC[fn.__name__] = fn
+        return fn
+
+    @rec
+    def recompile_assert_comment_pragma_nonce():
+        v = pt.ScratchVar(T.uint64)
+        mv = pt.App.globalGetEx(pt.Int(0), pt.Bytes("k"))
+        body = pt.Seq(
+            pt.Assert(pt.Txn.fee() <= pt.Int(1000), comment="fee too high"),
+            pt.Assert(pt.Txn.fee() > pt.Int(0), pt.Txn.first_valid() > pt.Int(1), pt.Int(1), comment="three conditions"),
+            pt.Assert(pt.Int(1)), pt.Assert(pt.Int(1), pt.Int(2)),
+            pt.Comment("outer", pt.Seq(v.store(pt.Int(1)), pt.Comment("inner\nsecond line", pt.Pop(v.load())))),
+            mv, pt.If(mv.hasValue()).Then(pt.Pop(mv.value())).ElseIf(v.load()).Then(pt.Pop(pt.Int(2))).Else(pt.Pop(pt.Int(3))),
+            pt.Cond([v.load() == pt.Int(1), pt.Pop(pt.Int(1))], [pt.Int(1), pt.Pop(pt.WideRatio([v.load(), pt.Int(3)], [pt.Int(2)]))]),
+            pt.Pop(pt.Nonce("base16", "0xabcd", pt.Int(7))),
+            pt.Approve())
+        return attempts(pt.Pragma(body, compiler_version=">=0.20.0"), pt.Mode.Application, seq3)
+
+    @rec
+    def recompile_signature_low_versions():
+        e = pt.Seq(pt.Assert(pt.Txn.fee() < pt.Int(9), comment="c"), pt.Assert(pt.Int(1), pt.Int(2), comment="d"), pt.Int(1))
+        return attempts(e, pt.Mode.Signature, [("v2", {"version": 2}), ("v3", {"version": 3}), ("v2", {"version": 2}), ("v3", {"version": 3}), ("v5ac", {"version": 5, "assembleConstants": True}),
+                                               ("v3", {"version": 3}), ("v5ac", {"version": 5, "assembleConstants": True})])
+
+    @rec
+    def recompile_subroutines_abi_itxn():
+        @pt.Subroutine(T.uint64)
+        def fact(n):
+            t = pt.ScratchVar(T.uint64)
+            return pt.Seq(pt.Assert(n < pt.Int(30), comment="bounded"), t.store(n), pt.If(n <= pt.Int(1), pt.Int(1), fact(n - pt.Int(1)) * t.load()))
+
+        @pt.ABIReturnSubroutine
+        def inc(a: abi.Uint64, *, output: abi.Uint64):
+            return pt.Seq(pt.Assert(a.get() < pt.Int(100), comment="small"), output.set(a.get() + pt.Int(1)))
+        x, y = abi.Uint64(), abi.Uint64()
+        tup = abi.make(abi.Tuple2[abi.Uint64, abi.String])
+        s_ = abi.String()
+        e = pt.Seq(x.set(pt.Int(3)), inc(x).store_into(y), s_.set("s"), tup.set(y, s_), pt.Log(tup.encode()), pt.Pop(fact(y.get())),
+                   pt.InnerTxnBuilder.ExecuteMethodCall(app_id=pt.Int(1), method_signature="m(uint64)void", args=[y], extra_fields=ex2()),
+                   pt.InnerTxnBuilder.Execute({F.type_enum: pt.TxnType.Payment, F.amount: pt.Int(1), F.receiver: pt.Txn.sender()}), pt.Approve())
+        return attempts(e, pt.Mode.Application, [A, A, B, B, A, C, C, B])
+
+    @rec
+    def recompile_router_single_method():
+        out = []
+        for ret in (True, False):
+            r = pt.Router("rc", pt.BareCallActions(no_op=pt.OnCompleteAction.create_only(pt.Seq(pt.Assert(pt.Txn.fee() < pt.Int(5000), comment="bare"), pt.Approve()))),
+                          clear_state=pt.Seq(pt.Assert(pt.Int(1), comment="clear"), pt.Approve()))
+            if ret:
+                @r.method
+                def m(a: abi.Uint64, b: abi.String, *, output: abi.Uint64):
+                    return pt.Seq(pt.Assert(a.get() > pt.Int(0), comment="positive"), output.set(a.get() + pt.Len(b.get())))
+            else:
+                @r.method
+                def n(a: abi.Uint64):
+                    return pt.Seq(pt.Assert(a.get() > pt.Int(0), comment="positive"), pt.Assert(pt.Int(1), pt.Int(2), comment="two"))
+            for label, kw in [("v6", {"version": 6}), ("v6", {"version": 6}), ("v8", {"version": 8}), ("v8", {"version": 8}), ("v6", {"version": 6}), ("v8", {"version": 8})]:
+                try:
+                    a_, c_, _ = r.compile_program(**kw)
+                    out.append(["%s-%s" % (label, ret), ["ok", a_ + "\n====\n" + c_]])
+                except Exception as e:  # noqa
+                    out.append(["%s-%s" % (label, ret), ["exc", type(e).__name__]])
+        return out
+
+    # ------------------------------------------------------------------------------------------
+    # the same SOURCE built and compiled many times in one process, with unrelated allocations in between (object addresses,
+    # hence the iteration order of sets of objects hashed by identity, differ from build to build)
+    RB = {}
+
+    def reb(fn):
+        RB[fn.__name__] = fn
+        return fn
+
+    res_ids = R.sample([8, 16, 24, 32, 40, 64, 128], 3)
+
+    @reb
+    def rebuilt_recursive_reserved_slots():
+        @pt.Subroutine(T.uint64)
+        def f(n):
+            tmp = pt.ScratchVar(T.uint64, res_ids[0])
+            return pt.Seq(tmp.store(n * pt.Int(2)), pt.If(n == pt.Int(0), pt.Int(0), f(n - pt.Int(1)) + tmp.load()))
+
+        @pt.Subroutine(T.uint64)
+        def g(n, m):
+            a = pt.ScratchVar(T.uint64, res_ids[1])
+            b = pt.ScratchVar(T.uint64)
+            c = pt.ScratchVar(T.uint64, res_ids[2])
+            d = pt.ScratchVar(T.uint64)
+            return pt.Seq(a.store(n), b.store(m), c.store(n + m), d.store(n * m),
+                          pt.If(n == pt.Int(0), m, g(n - pt.Int(1), h(m)) + a.load() + b.load() + c.load() + d.load()))
+
+        @pt.Subroutine(T.uint64)
+        def h(k):
+            w = pt.ScratchVar(T.uint64)
+            z = pt.ScratchVar(T.uint64)
+            return pt.Seq(w.store(k), z.store(k + pt.Int(1)), pt.If(k > pt.Int(5), g(k - pt.Int(6), z.load()), w.load() + z.load()))
+        prog = pt.Return(f(pt.Int(5)) + g(pt.Int(2), pt.Int(3)))
+        return "\n====\n".join([pt.compileTeal(prog, pt.Mode.Application, version=v) for v in (4, 6)] +
+                                [pt.compileTeal(prog, pt.Mode.Application, version=9, optimize=pt.OptimizeOptions(frame_pointers=False, scratch_slots=False))])
+
+    v_rb = R.choice([6, 7])
+
+    @reb
+    def rebuilt_many_subroutines_and_slots():
+        ws = []
+        def mk(k):
+            def body(x):
+                vs = [pt.ScratchVar(T.uint64) for _ in range(3)]
+                return pt.Seq(*[v.store(x + pt.Int(i)) for i, v in enumerate(vs)], *[pt.Pop(w(vs[0].load())) for w in ws[max(0, k - 2):k]], vs[1].load() + vs[2].load())
+            body.__name__ = "rb%d" % k
+            return pt.Subroutine(T.uint64)(body)
+        for k in range(6):
+            ws.append(mk(k))
+        gl = pt.ScratchVar(T.uint64)
+        return pt.compileTeal(pt.Seq(gl.store(pt.Int(1)), *[pt.Pop(w(gl.load())) for w in ws], pt.Approve()), pt.Mode.Application, version=v_rb)
+
+    return P, RC, RB
+
+
+def rebuild(fn, vseed, rounds):
+    """Build + compile the same source `rounds` times; between builds allocate unrelated objects and keep them alive."""
+    import pyteal as pt
+    N = random.Random(vseed * 7919 + 13)
+    keep = []
+    variants = {}
+    for k in range(rounds):
+        try:
+            v = ["ok", fn()]
+        except RecursionError:
+            v = ["exc", "RecursionError"]
+        except Exception as e:  # noqa
+            v = ["exc", type(e).__name__ + ": " + str(e)[:200]]
+        variants.setdefault(json.dumps(v), []).append(k)
+        keep.append([pt.ScratchSlot() for _ in range(N.randrange(5))])
+        keep.append([pt.ScratchVar() for _ in range(N.randrange(3))])
+        keep.append([object() for _ in range(N.randrange(40))])
+        if N.random() < 0.3:
+            keep.append(bytearray(N.randrange(1, 5000)))
+        if N.random() < 0.2 and keep:
+            del keep[N.randrange(len(keep))]
+    vs = sorted(variants.items(), key=lambda kv: kv[1][0])
+    first = json.loads(vs[0][0])
+    extra = {"variants": len(vs)}
+    if len(vs) > 1:
+        extra["other"] = json.loads(vs[1][0])
+        extra["rounds"] = [kv[1][:8] for kv in vs[:4]]
+    return first, extra
 
 
 def main():
     vseed = int(sys.argv[1])
-    only = sys.argv[2:]
+    rounds = int(sys.argv[2])
+    only = sys.argv[3:]
     out = {}
-    P = programs(vseed)
+    P, RC, RB = programs(vseed)
     for name, fn in P.items():
         if only and name not in only:
             continue
@@ -242,6 +408,28 @@ def main():
             out[name] = ["exc", "RecursionError"]
         except Exception as e:  # noqa
             out[name] = ["exc", type(e).__name__ + ": " + str(e)[:200]]
+    for name, fn in RC.items():
+        if only and name not in only:
+            continue
+        try:
+            att = fn()
+        except Exception as e:  # noqa
+            out[name] = ["exc", type(e).__name__ + ": " + str(e)[:200]]
+            continue
+        first = {}
+        bad = None
+        for k, (label, val) in enumerate(att):
+            if label not in first:
+                first[label] = (k, val)
+            elif first[label][1] != val and bad is None:
+                bad = {"config": label, "attempt_first": first[label][0] + 1, "attempt_later": k + 1, "first": first[label][1], "later": val,
+                       "sequence": [a[0] for a in att]}
+        out[name] = ["ok", json.dumps(att), {"recompile_differs": bad} if bad else {}]
+    for name, fn in RB.items():
+        if only and name not in only:
+            continue
+        first, extra = rebuild(fn, vseed, rounds)
+        out[name] = [first[0], first[1], extra]
     json.dump(out, sys.stdout)
 
 
